@@ -289,6 +289,7 @@ func runC07(c *Ctx) {
 			"role "+role+" is waited on by other roles and can execute dealer.yield's retry loop, whose duration (up to sendResultDeadline) depends on a client draining its queue")
 	}
 	ruleMetaShutdownJoin(c, r2)
+	ruleCompletionSignalled(c, r2)
 	c.R.Floor(r2, 11)
 
 	const r5 = "C07.R5 a cancel is answered at once unless the callee was actually interrupted in kill mode"
@@ -320,6 +321,7 @@ func runC07(c *Ctx) {
 	for _, f := range []string{"transport.newRawSocketPeer", "transport.NewWebsocketPeer"} {
 		c.Has(r4, f, "outbound queue sized from outQueueSize", `^val:makechan\(chan wamp\.Message,%outQueueSize\)$`, 1)
 	}
+	ruleQueueDefault(c, r4)
 	c.R.Floor(r4, 4)
 }
 
